@@ -51,6 +51,10 @@ chk("C13",
     "Bounded-exhaustive exploration over the schema-derived catalogue: every mapping node of the 4 maximal seeds (every section of the workflow syntax) x {foreign key inserted first/middle/last, every existing key duplicated verbatim and re-cased, every mandatory key removed} x {alone, combined with a malformed placeholder in each direct sibling scalar}; each mutated workflow linted by the real Linter; oracle from the documentation-derived schema: report at the foreign key (schedule: at the item), at the repetition, a diagnostic naming the removed key, and the sibling's own diagnostic survives.",
     "One occurrence of each section (the seeds); block-style mappings; foreign keys are not asserted for open mappings; event names under on: are left to the events rule." + OVERLAY_NOTE,
     "exhaustive enumeration of (mapping, key mutation, sibling) over a schema-derived catalogue; positional oracle")
+chk("C16",
+    "Bounded-exhaustive exploration of (echo site x hostile payload x output mode): every value and key position of 4 clean seeds and a noisy seed whose diagnostics echo object types, names and user strings x 12 payloads (LF, CR, control, ESC, NEL, LS, tab, non-ASCII, ' [b]', 'x:1:2: y', format verbs) in 1-5 embeddings (whole scalar, appended, string literal, fromJSON key, identifier); each resulting diagnostic list rendered by the real Linter in default, -oneline, coloured -oneline, {{json .}} and a custom template and parsed back: header line count, shipped problem-matcher regexp (JavaScript '.' semantics) -> same file/line/column/message/kind, JSON round trip, snippet = referenced line; plus PrettyPrint/GetTemplateFields over all sources of length <=4 (thorough 5) over {a, space, tab, LF, é, あ} x line -1..4 x column -1..7 against a reference (no panic, header, referenced line, caret column).",
+    "Echo sites are those reachable from the seeds' positions; the matcher regexp is evaluated by Go's regexp package after narrowing '.' to JavaScript's meaning; caret placement is not compared when the prefix contains a tab or the column splits a multi-byte character." + OVERLAY_NOTE,
+    "exhaustive enumeration of (position, payload, mode) and of all short (source, line, column) triples; parse-back oracle")
 chk("C17",
     "Bounded-exhaustive model checking of ValidateRefGlob/ValidatePathGlob: every string of length <=5 (thorough 6) over an 18-symbol alphabet covering all special characters and one representative per character class, each compared with a reference validator written from the documented syntax (accept/reject), the ref=>path implication and the column/named-character oracle; every string <=3 also through Linter.Lint.",
     "Characters outside the alphabet are represented by class representatives; strings longer than the bound are not explored; appendix-B don't-care classes are not compared." + OVERLAY_NOTE,
